@@ -135,6 +135,35 @@ def freq_invariance(ctx, rng):
     return None, None
 
 
+def small_units(ctx, rng):
+    """consistent small units (N - mm - tonne) and many series terms: the high-order mass entries are far below 1e-16 in
+    absolute value and are still the kinetic-energy Hessian, entry by entry, and positive definite"""
+    lean_model, mn = rng.choice([('PlateW', rng.randint(9, 12)), ('Plate', rng.randint(5, 7))])
+    case = pc.gen_panel_case(rng, models=(lean_model,), max_mn=3, y12=False)
+    case.update(m=mn, n=mn, a=rng.uniform(20., 60.), b=rng.uniform(15., 40.), plyt=0.125, mu=rng.choice([1.6e-9, 2.7e-9, 7.8e-9]),
+                stack=[0, 90, 90, 0], laminaprop=(142.5e3, 8.7e3, 0.28, 5.1e3, 5.1e3, 5.1e3), offset=0.)
+    for k in case['flags']:
+        case['flags'][k] = 1.
+    p = pc.make_panel(case)
+    pc.quiet(p.calc_k0, silent=True)
+    full = pc.quiet(p.calc_kM, silent=True).toarray()
+    want = panel_v.oracle_matrix(case['model'], p, 'kM', dict(delta=0.), full.shape[0], 0, 0, None)
+    want = np.triu(want) + np.triu(want, 1).T
+    dg = np.sqrt(np.abs(np.diag(want)))
+    if np.any(dg == 0):
+        return case, None
+    err = np.abs(full - want) / np.outer(dg, dg)
+    if err.max() > 1e-6:
+        i, j = np.unravel_index(err.argmax(), err.shape)
+        return case, ('mass matrix in N-mm-tonne units with %d x %d terms: entry [%d,%d] = %.6e, kinetic-energy Hessian %.6e '
+                      '(error %.2e relative to sqrt(M_ii M_jj); smallest diagonal entry of the Hessian %.3e)'
+                      % (mn, mn, i, j, full[i, j], want[i, j], err.max(), np.diag(want).min()))
+    w = np.linalg.eigvalsh(full / np.outer(dg, dg))
+    if w.min() <= 0:
+        return case, 'mass matrix in N-mm-tonne units not positive definite on the active amplitudes (scaled min eig %.3e)' % w.min()
+    return case, None
+
+
 def correspondence(ctx):
     ir = pc.translated(ctx)
     rng = ctx.rng
@@ -157,7 +186,7 @@ def correspondence(ctx):
             ctx.violation(v_bad, dict(case=case, tie='V fkM'), found_input=False)
             return
     for t in range(ctx.scale(4, 30)):
-        for fn, ident in ((total_mass, None), (freq_invariance, 'C04-mass-offset-sign')):
+        for fn, ident in ((total_mass, None), (freq_invariance, 'C04-mass-offset-sign')) + (((small_units, None),) if t < ctx.scale(2, 8) else ()):
             c, bad = fn(ctx, rng)
             ctx.evaluations += 1
             if bad and ctx.violation('C04 fails on the implementation: ' + bad, dict(case=c, derived=fn.__name__), identity=ident):
